@@ -304,7 +304,14 @@ pub fn check_c06(cfg: &ChainCfg, h: &History, out: &mut RunOutcome) {
     }
     out.probe("frozen_pairs_checked", frozen_checked);
     // (c) constant base step size after warmup, step sizes in the jitter band
-    if n > nt {
+    // A run in which no draw made a single leapfrog step (maxdepth 0, or a model without parameters) has no
+    // acceptance statistic at all (0/0): the step size is never used and what the estimators make of the
+    // undefined statistic is outside the property's quantifier ("all acceptance histories") - not judged.
+    let no_leapfrog = !h.draws.is_empty() && h.draws.iter().all(|d| d.progress.num_steps == 0);
+    if no_leapfrog {
+        out.probe("run_without_any_leapfrog_step_size_not_judged", 1);
+    }
+    if n > nt && !no_leapfrog {
         let first_post = nt as usize;
         let sbar = h.draws[first_post].f64("step_size_bar");
         if let Some(sbar) = sbar {
